@@ -257,6 +257,18 @@ func cmdLocals(args []string) {
 			}
 		}
 	}
+	if len(args) > 0 && args[0] == "functions" {
+		fns := map[string]string{}
+		for key, fn := range s.Ex.FuncByKey {
+			if o := fn.Origin(); o != nil {
+				fn = o
+			}
+			fns[key] = vc.SigString(fn)
+		}
+		data, _ := json.MarshalIndent(fns, "", " ")
+		fmt.Println(string(data))
+		return
+	}
 	data, _ := json.MarshalIndent(out, "", " ")
 	fmt.Println(string(data))
 }
